@@ -106,6 +106,54 @@ def run(cmd, timeout, cwd=None, stdout_path=None):
     return rc, so, se, time.time() - t0
 
 
+import atexit
+import hashlib
+import threading
+
+_SHARED_ROOT = None
+_shared_lock = threading.Lock()
+_tu_cache = {}  # key -> {'lock': Lock, 'done': bool, 'error': str|None, 'dir': path, 'sp': info, 'defined': {...}}
+
+
+def _shared_root():
+    global _SHARED_ROOT
+    with _shared_lock:
+        if _SHARED_ROOT is None:
+            _SHARED_ROOT = tempfile.mkdtemp(prefix='isalv_tu_', dir=os.environ.get('VERIF_TMP', None))
+            if not os.environ.get('VERIF_KEEP'):
+                atexit.register(shutil.rmtree, _SHARED_ROOT, True)
+    return _SHARED_ROOT
+
+
+def compile_tu(h, tier):
+    """Splice + preprocess + goto-cc -c once per (harness TU, spliced files, defines, tier) and process."""
+    key = hashlib.sha1(repr((h.src, sorted(h.splice), sorted(h.defines), tier)).encode()).hexdigest()[:16]
+    with _shared_lock:
+        ent = _tu_cache.setdefault(key, {'lock': threading.Lock(), 'done': False})
+    with ent['lock']:
+        if ent['done']:
+            return ent
+        d = os.path.join(_shared_root(), key)
+        os.makedirs(d, exist_ok=True)
+        ent.update(dir=d, error=None, sp=None, defined=None, obj=os.path.join(d, 'tu.o'), cflags=None)
+        try:
+            sp = splice_sources(h, d)
+            defs = ['-DISAL_VERIF'] + REPO_DEFS + ['-D' + x for x in h.defines]
+            if tier == 'thorough':
+                defs.append('-DVERIF_THOROUGH')
+            cflags = defs + include_flags(d)
+            ent['sp'], ent['cflags'] = sp, cflags
+            ent['defined'] = defined_macros(h, cflags)
+            src = os.path.join(VERIF, 'harness', h.src)
+            rc, so, se, _ = run(['goto-cc', '-c'] + cflags + [src, '-o', ent['obj']], 600)
+            if rc != 0:
+                ent['error'] = 'goto-cc failed: ' + ((se or '') + (so or ''))[-1500:]
+        except Undecided as e:
+            ent['error'] = str(e)
+        ent['done'] = True
+    return ent
+
+
 def splice_sources(h, work):
     """Copy+annotate the /repo files the harness needs into work/src; returns info dict."""
     src_root = os.path.join(work, 'src')
@@ -144,9 +192,7 @@ def include_flags(work):
     return fl
 
 
-def must_fire(h, work, sp, cflags):
-    """Every contract macro that is defined must have an anchor in the spliced sources, and a
-    function with one loop contract must have a contract on each of its loops."""
+def defined_macros(h, cflags):
     src = os.path.join(VERIF, 'harness', h.src)
     rc, so, se, _ = run(['gcc', '-E', '-dM', '-x', 'c'] + cflags + [src], 120)
     if rc != 0:
@@ -156,6 +202,12 @@ def must_fire(h, work, sp, cflags):
         mo = re.match(r'#define ([CLHE]_\w+)(\(.*?\))?\s*(.*)$', line)
         if mo and mo.group(3).strip():
             defined[mo.group(1)] = mo.group(3)
+    return defined
+
+
+def must_fire(h, sp, defined):
+    """Every contract macro that is defined must have an anchor in the spliced sources, and a
+    function with one loop contract must have a contract on each of its loops."""
     missing = sorted(x for x in defined if x not in sp['macros'])
     if missing:
         raise Undecided('extraction: contract anchors not found in the current sources '
@@ -255,22 +307,24 @@ def verify(h, tier, keep=None):
            'cmd': ''}
     try:
         res['assumes_scan'] = scan_assumes(h)
-        sp = splice_sources(h, work)
-        defs = ['-DISAL_VERIF'] + REPO_DEFS + ['-D' + d for d in h.defines]
-        if tier == 'thorough':
-            defs.append('-DVERIF_THOROUGH')
-        cflags = defs + include_flags(work)
-        defined = must_fire(h, work, sp, cflags)
-        res['contract_macros'] = sorted(defined)
-        for fn in h.functions:
-            if fn in sp['failed']:
-                raise Undecided('extraction: could not parse %s: %s' % (fn, sp['failed'][fn]))
-        src = os.path.join(VERIF, 'harness', h.src)
+        tu = compile_tu(h, tier)
+        sp = tu.get('sp')
+        if sp is not None and tu.get('defined') is not None:
+            defined = must_fire(h, sp, tu['defined'])
+            res['contract_macros'] = sorted(defined)
+            for fn in h.functions:
+                if fn in sp['failed']:
+                    raise Undecided('extraction: could not parse %s: %s' % (fn, sp['failed'][fn]))
+        if tu.get('error'):
+            raise Undecided(tu['error'])
+        if os.environ.get('VERIF_KEEP'):
+            res['tu_dir'] = tu['dir']
         a, b = os.path.join(work, 'a.gb'), os.path.join(work, 'b.gb')
-        cc = ['goto-cc'] + cflags + ['--function', h.entry, src, '-o', a]
+        cc = ['goto-cc', '--function', h.entry, tu['obj'], '-o', a]
         rc, so, se, _ = run(cc, 300)
         if rc != 0:
-            raise Undecided('goto-cc failed: ' + ((se or '') + (so or ''))[-1500:])
+            raise Undecided('goto-cc (link) failed: ' + ((se or '') + (so or ''))[-1500:])
+        cc = ['goto-cc', '-c'] + ['-D…', '-I…', h.src]
         gi = ['goto-instrument', '--dfcc', h.entry]
         if h.enforce:
             gi += ['--enforce-contract', h.enforce]
@@ -303,7 +357,7 @@ def verify(h, tier, keep=None):
                 base += ['--sat-solver', 'cadical']
         elif h.solver in ('cvc5', 'z3'):
             base += ['--' + h.solver]
-        res['cmd'] = ' '.join(cc[:1] + ['…', '--function', h.entry, h.src] + ['&&'] + gi[:-2] + ['&&'] +
+        res['cmd'] = ' '.join(['goto-cc -c -DISAL_VERIF … ' + h.src + ' && goto-cc --function', h.entry, 'tu.o', '&&'] + gi[:-2] + ['&&'] +
                               ['cbmc'] + base[2:] + ['--stop-on-fail', '--trace', '--json-ui'])
         # list properties, split off canaries
         pj = os.path.join(work, 'props.json')
@@ -392,8 +446,10 @@ def verify(h, tier, keep=None):
         if status is None:
             raise Undecided('cbmc gave no verdict (rc=%s, crash or memory cap): %s' %
                             (pm.returncode, '; '.join(errors)[-600:]))
-        # canaries
-        if canaries:
+        fails = [r for r in results if r.get('status') == 'FAILURE']
+        succ = [r for r in results if r.get('status') == 'SUCCESS']
+        # canaries (only an otherwise successful run can be vacuous; a FAILURE above is reported as such)
+        if canaries and not fails:
             cres = parse_json_stream(cj)
             cr = []
             for m in cres:
@@ -405,8 +461,6 @@ def verify(h, tier, keep=None):
                 ok = set(failed_can)
                 raise Undecided('vacuity: canary %s is unreachable (contradictory requires/assume/invariant)' %
                                 [c for c in canaries if c not in ok])
-        fails = [r for r in results if r.get('status') == 'FAILURE']
-        succ = [r for r in results if r.get('status') == 'SUCCESS']
         res['discharged'] = len(succ) if not fails else len(succ)
         rnd = sorted(real, key=lambda p: p['name'])
         seed = int(os.environ.get('VERIF_SEED', '0') or 0)
